@@ -401,6 +401,14 @@ def handleWindow (ws : List String) : String :=
     s!"{" ".intercalate slots} | {Window.firstTrace n1 w} {Window.lastTrace n1 w}"
   | _ => "bad-op"
 
+/-- `hdrio VERSION NHB D LEN NARRAYS T`: range reads of `gen_trace_header(T)` on a regular file, then those of opening -/
+def handleHdrIO (ws : List String) : String :=
+  match ws.mapM String.toNat? with
+  | some [ver, nhb, d, len, na, t] =>
+    let sh (fs : List (Nat × Nat)) : String := ",".intercalate (fs.map fun (a, b) => s!"{a}:{b}")
+    s!"{sh (Container.headerReads ver nhb d len na t)} | {sh (Container.openReads nhb)}"
+  | _ => "bad-op"
+
 /-- `container <geo> Q VERSION NHB LEN NARRAYS`: disk blocks, the offset a reader of that version derives for every
 array, and the length a writer's output has -/
 def handleContainer (ws : List String) : String :=
@@ -458,6 +466,7 @@ def handle (line : String) : String :=
   | "window" :: rest => handleWindow rest
   | "container" :: rest => handleContainer rest
   | "header" :: rest => handleHeader rest
+  | "hdrio" :: rest => handleHdrIO rest
   | "hashfeed" :: rest => handleHashFeed rest
   | ["ping"] => "pong"
   | _ => "bad-op"
